@@ -6,6 +6,7 @@
 #[path = "/repo/blots-wasm/src/lib.rs"]
 mod wasm_driver;
 
+mod c07;
 mod c10;
 mod c11;
 mod c12;
@@ -66,9 +67,13 @@ fn main() {
         ("replay", prop) => {
             let cases = read_cases(&args[3]);
             let ls = lifts(&args);
+            let thorough = args.iter().any(|a| a == "--thorough");
+            let cli = opt(&args, "--cli");
             let out: Vec<J> = cases
                 .iter()
-                .map(|c| match prop {
+                .enumerate()
+                .map(|(idx, c)| match prop {
+                    "c07" => c07::replay(c, thorough, cli.as_deref(), idx),
                     "c12" => c12::replay(c, &ls),
                     "c10" => c10::replay(c),
                     "c11" => c11::replay(c),
@@ -83,7 +88,9 @@ fn main() {
             write_out(&args[4], &out);
         }
         ("record", prop) => {
+            let cli = opt(&args, "--cli");
             let out = match prop {
+                "c07" => c07::record(seed, n, cli.as_deref()),
                 "c12" => c12::record(seed, n),
                 "c10" => c10::record(seed, n),
                 "c11" => c11::record(seed, n),
